@@ -126,9 +126,28 @@ class Facts:
                     cur = ('proj', cur, t)
         return cur
 
+    def _co_fields(self):
+        """coroutine state fields: (variant token, field token) -> [(bb, idx, rvalue)] of assignments"""
+        if getattr(self, '_cof', None) is None:
+            d = {}
+            if self.b.kind == 'coroutine':
+                for bi, blk in enumerate(self.b.blocks):
+                    for si, st in enumerate(blk['s']):
+                        if st[0] == '=' and len(st[1][1]) == 3 and st[1][1][0] == '*' and st[1][1][1].startswith('@#') and st[1][1][2].startswith('.'):
+                            d.setdefault((st[1][1][1], st[1][1][2]), []).append((bi, si, st[2]))
+            self._cof = d
+        return self._cof
+
     def _sym_place(self, root, proj, depth):
         if depth > 40:
             return ('place', root, proj)
+        if self.b.kind == 'coroutine' and len(proj) >= 3 and proj[0] == '*' and proj[1].startswith('@#') and proj[2].startswith('.'):
+            # a value parked in the coroutine state across an await: follow its single assignment
+            asg = self._co_fields().get((proj[1], proj[2]), [])
+            if len(asg) == 1:
+                base = self.sym_rvalue(asg[0][2], depth + 1, asg[0][0])
+                if base is not None:
+                    return self._project(('cofield', proj[1] + proj[2], base), proj[3:]) if False else self._project(base, proj[3:])
         d = self.expandable(root)
         if d is None:
             return ('place', root, proj)
@@ -344,7 +363,29 @@ class Facts:
                     out.append((bi, len(blk['s'])))
         return out
 
-    def killed_between(self, edge, site_bb, site_idx, sym):
+    def own_arg_setup(self, bb):
+        """statement indexes of block bb that only prepare the arguments of bb's own call terminator
+        (`_t = &mut x` where _t is moved into the call): they do not invalidate facts *at* the call"""
+        t = self.b.term(bb)
+        if t[0] != 'call':
+            return set()
+        moved = {a[1][0] for a in t[2] if a[0] == 'mv' and not a[1][1]}
+        out = set()
+        stmts = self.b.stmts(bb)
+        changed = True
+        while changed:
+            changed = False
+            for si, st in enumerate(stmts):
+                if si in out or st[0] != '=' or st[1][1] or st[1][0] not in moved:
+                    continue
+                out.add(si); changed = True
+                rv = st[2]
+                # two-phase borrows: `_a = &mut x; _b = &mut (*_a)`
+                if rv[0] == 'ref' and rv[2][1][:1] == ['*']:
+                    moved.add(rv[2][0])
+        return out
+
+    def killed_between(self, edge, site_bb, site_idx, sym, ignore_idx=()):
         """is some place mentioned in `sym` possibly modified on a path from the edge to the site
         that does not re-take the edge?"""
         src, dst = edge
@@ -358,6 +399,8 @@ class Facts:
                     continue
                 if kb == site_bb and ki >= site_idx and not site_loops:
                     continue
+                if kb == site_bb and ki in ignore_idx and not site_loops:
+                    continue
                 return (kb, ki)
         return None
 
@@ -365,8 +408,10 @@ class Facts:
     def literals_at(self, bb, idx=None):
         """literals established by dominating switch edges and still valid at statement idx of bb
         (idx None = at the terminator).  Returns [(literal, (src,dst))]."""
+        ignore = ()
         if idx is None:
             idx = len(self.b.stmts(bb))
+            ignore = self.own_arg_setup(bb)
         key = (bb, idx)
         if key in self._lits:
             return self._lits[key]
@@ -375,7 +420,7 @@ class Facts:
             if len(labs) != 1:
                 continue
             for lit in self.edge_literals(src, labs[0]):
-                if self.killed_between((src, dst), bb, idx, lit) is None:
+                if self.killed_between((src, dst), bb, idx, lit, ignore) is None:
                     out.append((lit, (src, dst)))
         self._lits[key] = out
         return out
